@@ -28,7 +28,7 @@ import (
 type c20Scenario struct {
 	Group   bool
 	Initial string // changes applied before anything starts
-	Changes string // ENV thread: 'A' put k1=b1, 'B' put k1=b2, 'D' delete k1, 'a' put k2=b1, 'd' delete k2
+	Changes string // ENV thread: 'A' put k1=b1, 'B' put k1=b2, 'D' delete k1, 'a' put k2=b1, 'd' delete k2, 'C' etcd compacts its history up to the current revision
 	Break   bool   // offer watch-stream breaks
 	FailGet bool   // after start-up, etcd reads of the router may fail (the reload after a stream break)
 }
@@ -56,6 +56,8 @@ func c20Apply(srv *fakeetcd.Server, group bool, ch byte) {
 		_ = srv.DirectPut(k2, "b1", 0)
 	case 'd':
 		srv.DirectDelete(k2)
+	case 'C':
+		srv.Compact(0)
 	}
 }
 
@@ -89,6 +91,9 @@ func c20Body(sc c20Scenario) func(s *sched.Sched) {
 		s.Run()
 		if s.Deadlock {
 			s.Fail("deadlock", "blocked: %s", s.Blocked())
+		}
+		if s.Livelock {
+			s.Fail("router-never-quiesces", "the router is still taking steps (re-watching / reloading) after %d scheduling steps with no environment change pending", 20000)
 		}
 		if startErr != nil {
 			s.Fail("harness", "router start: %v", startErr)
@@ -166,13 +171,28 @@ func c20Scenarios(thorough bool) []c20Scenario {
 			})
 		}
 	}
+	// etcd compacts its history while a watch stream is down: resuming from an old revision is refused
+	// (ErrCompacted), only a fresh full read converges
+	// (a resume revision is refused only if it lies strictly below the compact revision: two changes, the
+	// first lost with the broken stream, then the compaction)
+	comp := []string{"BC", "BaC", "BDC", "CB", "BCa"}
+	if thorough {
+		comp = append(comp, "aBC", "BCB", "DCA", "BaCD", "BAC", "DaC")
+	}
+	for _, group := range []bool{false, true} {
+		for _, init := range []string{"A", "Aa"} {
+			for _, ch := range comp {
+				out = append(out, c20Scenario{Group: group, Initial: init, Changes: ch, Break: true})
+			}
+		}
+	}
 	return out
 }
 
 func TestVerifC20(t *testing.T) {
 	rep := vh.New(t, "C20")
 	defer rep.Finish()
-	rep.Rule = "for every closed system (initial leases x sequence of lease puts/deletes x router kind x breaks allowed x reload reads may fail): DFS over interleavings of router start-up (Get, Watch establishment), environment changes and watch deliveries, with stream-break decisions (deviation bound); after quiescence + virtual time for reconnects the table must equal etcd; distinct = distinct final tables per scenario; non-trivial = >=1 thread switch or break"
+	rep.Rule = "for every closed system (initial leases x sequence of lease puts/deletes/compactions x router kind x breaks allowed x reload reads may fail): DFS over interleavings of router start-up (Get, Watch establishment), environment changes and watch deliveries, with stream-break decisions (deviation bound); after quiescence + virtual time for reconnects the table must equal etcd; distinct = distinct final tables per scenario; non-trivial = >=1 thread switch or break"
 	rep.Assumptions = []string{"fake etcd watch: events of one revision delivered as one batch in revision order; a broken stream ends with a canceled response and a closed channel, undelivered events lost", "virtual time (synctest) for the 1 s reconnect sleep"}
 	P, D := 2, 1
 	if vh.Thorough() {
